@@ -467,6 +467,7 @@ func ruleWalFileOrder(c *Ctx, r *Reporter) {
 		sorted = bad == nil
 	}
 	r.Check(sorted, "wal.FindWALFiles", c.FnPos(find), "the file list is sorted by name (creation time) before it is returned", "FindWALFiles returns the directory listing unsorted: files would be replayed out of order")
+	var helperCall *ssa.Call // GetEntriesFrom's helper that walks the older files, if the loop was extracted
 	for _, fn := range []*ssa.Function{dir, from} {
 		// the loop over the files returned by FindWALFiles is ascending
 		var filesVal ssa.Value
@@ -485,6 +486,34 @@ func ruleWalFileOrder(c *Ctx, r *Reporter) {
 				}
 			}
 		}
+		if !ok && filesVal != nil {
+			// the loop may live in a helper of the same type that receives the file list
+			AllInstrs(fn, false, func(_ *ssa.Function, ins ssa.Instruction) {
+				call, isCall := ins.(*ssa.Call)
+				if !isCall {
+					return
+				}
+				g := call.Call.StaticCallee()
+				if g == nil || !c.InKevo(g) || len(g.Blocks) == 0 {
+					return
+				}
+				for i, a := range call.Call.Args {
+					if a != filesVal || i >= len(g.Params) {
+						continue
+					}
+					for _, w := range IndexWalks(g) {
+						for _, ia := range w.IndexAddr {
+							if ia.X == ssa.Value(g.Params[i]) && w.Dir == "asc" {
+								ok = true
+								if fn == from {
+									helperCall = call
+								}
+							}
+						}
+					}
+				}
+			})
+		}
 		r.Check(ok && filesVal != nil, FnName(fn)+":ascending", c.FnPos(fn), "files are visited in ascending (append) order", "log files are not visited in ascending name order")
 	}
 	// GetEntriesFrom: the current file is read after the loop over the others
@@ -502,6 +531,13 @@ func ruleWalFileOrder(c *Ctx, r *Reporter) {
 				}
 			}
 			if !inLoop && loopHdr.Dominates(s.Block()) {
+				okLast = true
+			}
+		}
+	}
+	if !okLast && helperCall != nil {
+		for _, s := range c.CallsIn(from, NewFnSet(fromFile), false) {
+			if Dominates(helperCall, s) && len(c.CallsIn(helperCall.Call.StaticCallee(), NewFnSet(fromFile), false)) > 0 {
 				okLast = true
 			}
 		}
